@@ -688,6 +688,9 @@ class AbstractPathModelDAG(ABC):
 
         # self.write_model(f"model-{self.id}.lp")
         start_time = time.perf_counter()
+        # What was read from a previous run of the solver is not the solution of this run
+        self._solution = None
+        self.edge_vars_sol = {}
         self.solver.optimize()
         self.solve_statistics[f"milp_solve_time_for_num_paths_{self.k}"] = (
             time.perf_counter() - start_time
